@@ -313,8 +313,49 @@ def confirm_mp(g, l, m):
     return float(abs(tot))
 
 
+SPELL_SNIPPET = """import warnings; warnings.filterwarnings('ignore')
+import numpy as np
+from grid.angular import AngularGrid
+a = AngularGrid({kw}={val}, method={spell!r}, cache={cache})
+b = AngularGrid({kw}={val}, method={low!r}, cache=False)
+assert np.array_equal(a.points, b.points) and np.array_equal(a.weights, b.weights), 'the grid depends on the spelling of the method name'
+assert abs(a.weights.sum() - 4 * np.pi) < 1e-9, a.weights.sum()
+"""
+
+
+def _oracle_call_paths(ctx: Ctx, ang):
+    """Every way of constructing the same quadrature gives the same grid: spelling of the method name (the API
+    lower-cases it), degree= vs size=, cache on/off, first and repeated construction."""
+    methods = ["lebedev", "spherical", "maxdet", "ahrens_beylkin"]
+    for m in methods:
+        degs = sorted(ang.AngularGrid._get_degree_and_size(degree=d, size=None, method=m)[0] for d in (3, 9, 14))
+        for d in sorted(set(degs))[:2]:
+            if (m, d) in (("ahrens_beylkin", 39), ("ahrens_beylkin", 127)):
+                continue
+            ref = ang.AngularGrid(degree=d, method=m, cache=False)
+            for spell in (m.upper(), m.title(), m[0].upper() + m[1:]):
+                for kw, val in (("degree", d), ("size", ref.size)):
+                    for cache in (False, True, True):
+                        try:
+                            g = ang.AngularGrid(**{kw: val}, method=spell, cache=cache)
+                        except ValueError:
+                            ctx.info(f"method spelling {spell!r} is rejected")
+                            break
+                        ctx.count(["call-path", spell, kw, val, cache], nontrivial=True, tag="call-path:" + m)
+                        if not (np.array_equal(g.points, ref.points) and np.array_equal(g.weights, ref.weights)
+                                and abs(float(g.weights.sum()) - 4 * np.pi) < 1e-9):
+                            ctx.fail("oracle", f"angular.AngularGrid:{m}:method-spelling",
+                                     f"AngularGrid({kw}={val}, method={spell!r}, cache={cache}) differs from the grid built with method={m!r} "
+                                     f"(sum of weights {float(g.weights.sum())!r}, 4 pi = {4 * np.pi!r})",
+                                     witness={"method": spell, kw: val, "cache": cache},
+                                     snippet=SPELL_SNIPPET.format(kw=kw, val=val, spell=spell, low=m, cache=cache))
+    for c in ("LEBEDEV_CACHE", "SPHERICAL_CACHE", "MAX_DET_CACHE", "AHRENS_BEYLKIN_CACHE"):
+        getattr(ang, c).clear()
+
+
 def oracle(ctx: Ctx, budget: str):
     ang = importlib.import_module("grid.angular")
+    _oracle_call_paths(ctx, ang)
     files = all_files(ang)
     everything = ctx.thorough or budget == "large"
     sel = select(ctx, files, everything)
